@@ -37,21 +37,30 @@ impl Dependencies for NumberLoop {
         result.append(&mut self.val_start.net_dependencies());
         result.append(&mut self.val_end.net_dependencies());
 
+        // the counter is a variable of the step and of the body, and of nothing else
+        let mut inside_the_loop = vec![];
+
         if let Some(ref step) = self.step {
-            result.append(&mut step.net_dependencies());
+            inside_the_loop.append(&mut step.net_dependencies());
         }
 
-        result.append(&mut self.body.net_dependencies());
+        inside_the_loop.append(&mut self.body.net_dependencies());
+
+        if let Some(ref name) = self.name {
+            let counter: super::Dependency = name.into();
+            inside_the_loop.retain(|dependency| !counter.eq_allow_callbacks(dependency).unwrap_or(false));
+        }
+
+        result.append(&mut inside_the_loop);
 
         result
     }
 
+    /// Nothing: the counter is deleted when the loop ends. Reported as supplied, it also covered the
+    /// statements AFTER the loop: a closure created there that reads an outer variable of the same name
+    /// made the enclosing function capture nothing, and the name was looked up in the callers' frames.
     fn supplies(&self) -> Vec<super::Dependency> {
-        if let Some(ref name) = self.name {
-            vec![name.into()]
-        } else {
-            vec![]
-        }
+        vec![]
     }
 }
 
